@@ -41,7 +41,8 @@ META = {
         "Coq 8.16.1 kernel (coqc, full .vo build); no axioms",
         "hand-written Gallina models InputModel.v / DetectModel.v (input handle, detection order) tied to the code by C09's handle "
         "correspondence; MsgpackModel.v tied by the MessagePack correspondence; JsonModel.v tied by the JSON correspondence "
-        "(tools/jsoncorr.py: token sequences, number/string spellings, nesting, generated streams, mutations)",
+        "(tools/jsoncorr.py: token sequences, number/string spellings, nesting, generated streams, mutations); ChunkerModel.v "
+        "(chunker and has_document over libyaml's event list) tied by the chunker correspondence (K/KH cases)",
         "third-party parsers' slice/reader agreement: observed by the exhaustive token-sequence differential (harness `tokens`) and "
         "the session oracle",
         "harness/src/tokens.rs, session.rs, util.rs (SchedReader), tools/*.py",
